@@ -15,6 +15,7 @@ func (e *Env) invoke(fn *types.Func, recv *Value, args []Value, pos token.Pos, r
 	if fc, ok := e.w.Cs.Funcs[key]; ok {
 		return e.callContract(fc, key, sig, recv, args, pos, rt)
 	}
+	e.curCallArgs = nil
 	if inModule(fn.Pkg()) {
 		if pkg := e.w.Pkgs[fn.Pkg().Path()]; pkg != nil {
 			if fd, ok := pkg.Funcs[key]; ok && e.inline < 3 && inlinable(fd) {
@@ -60,6 +61,7 @@ func (e *Env) deferStmt(s *ast.DeferStmt) {
 		return
 	}
 	site.args = e.evalArgs(x, site.fn.Type().(*types.Signature))
+	site.argExprs = x.Args
 	// struct receivers by value must be captured (copied) now
 	if site.hasRV && site.recv.K == VStruct {
 		sigRecv := site.fn.Type().(*types.Signature).Recv().Type()
@@ -104,7 +106,12 @@ func (e *Env) runDefers() {
 		savedUnw := e.unwindTo
 		e.unwindTo = join
 		savedArmed := e.mayArmed
+		e.curCallArgs = d.argExprs
+		savedFC := e.forceClass
+		e.forceClass = -1
 		e.invoke(d.fn, rv, d.args, d.call.Pos(), nil)
+		e.forceClass = savedFC
+		e.curCallArgs = nil
 		e.mayArmed = savedArmed
 		e.unwindTo = savedUnw
 		e.pkg = savedPkg
@@ -136,10 +143,14 @@ func (e *Env) unwindFrom(b *Block) {
 		b.Succ = append(b.Succ, e.unwindTo)
 		return
 	}
+	j := e.newBlock("unwind-path")
+	b.Succ = append(b.Succ, j)
 	saved := e.cur
-	e.cur = b
+	savedArmed := e.cloneArmed()
+	e.cur = j
 	e.leave()
 	e.cur = saved
+	e.mayArmed = savedArmed
 }
 
 // FuncResult is the outcome of lowering one function.
@@ -155,7 +166,7 @@ func (w *World) lowerFunc(pkg *Pkg, key string, fd *ast.FuncDecl, fc *FuncContra
 	fn := pkg.Info.Defs[fd.Name].(*types.Func)
 	sig := fn.Type().(*types.Signature)
 	proc := &Proc{Name: key, Sorts: map[string]Sort{}}
-	e := &Env{w: w, pkg: pkg, fd: fd, fn: fn, fc: fc, proc: proc, short: shortKey(key),
+	e := &Env{w: w, pkg: pkg, fnPkg: pkg.Path, fd: fd, fn: fn, fc: fc, proc: proc, short: shortKey(key),
 		locals: map[types.Object]string{}, assigned: map[string]bool{}, callOrd: map[string]int{},
 		oldNeeded: map[string]Sort{}, anchors: map[string]int{}, usedCl: map[*Clause]bool{},
 		trusted: map[string]bool{}, specLocals: map[string]types.Object{}, panicOrd: map[string]int{},
@@ -346,7 +357,7 @@ func (w *World) lowerFunc(pkg *Pkg, key string, fd *ast.FuncDecl, fc *FuncContra
 
 	// body
 	e.pseudoAnchor("$entry", true)
-	e.block(fd.Body.List)
+	e.blockT(fd.Body.List, true)
 	e.leave()
 
 	// unused anchored clauses are failed obligations
@@ -509,4 +520,44 @@ func contractTagged(fc *FuncContract, tag string) bool {
 		}
 	}
 	return false
+}
+
+
+// lowerZeroInv builds the obligations "the zero value of T satisfies T's invariant",
+// which justify the axiom used for the abstract invariant outside T's package.
+func (w *World) lowerZeroInv(typeKey string) *FuncResult {
+	pkgPath := typeKey[:strings.LastIndex(typeKey, ".")]
+	name := typeKey[strings.LastIndex(typeKey, ".")+1:]
+	pkg := w.Pkgs[pkgPath]
+	if pkg == nil {
+		return nil
+	}
+	obj := pkg.Types.Scope().Lookup(name)
+	if obj == nil {
+		return nil
+	}
+	if _, _, ok := structOf(obj.Type()); !ok {
+		return nil
+	}
+	short := shortKey(typeKey)
+	proc := &Proc{Name: typeKey + "#zero", Sorts: map[string]Sort{}}
+	e := &Env{w: w, pkg: pkg, fnPkg: pkg.Path, proc: proc, short: short,
+		locals: map[types.Object]string{}, assigned: map[string]bool{}, callOrd: map[string]int{},
+		oldNeeded: map[string]Sort{}, anchors: map[string]int{}, usedCl: map[*Clause]bool{},
+		trusted: map[string]bool{}, specLocals: map[string]types.Object{}, panicOrd: map[string]int{},
+		constGlobals: map[string]string{}, nonNil: map[string]bool{}, forceClass: -1,
+		localTypes: map[string]types.Type{}, constVals: map[types.Object]Value{}, assignCount: map[types.Object]int{},
+		localDefs: map[types.Object][]ast.Expr{}, inlineClass: map[types.Object]*Term{}, mayArmed: map[*deferSite]bool{}}
+	e.useDep = true
+	res := &FuncResult{Key: typeKey + "#zero", Short: short, Proc: proc, Env: e}
+	entry := proc.NewBlock("entry")
+	proc.Entry = entry
+	e.cur = entry
+	e.assume(And(Gt(e.nextRef(), IntLit(0)), Gt(e.nextObj(), IntLit(0))))
+	z := e.zero(obj.Type())
+	e.collectInvFiltered(z, nil, func(tk string, cl *Clause, t *Term) {
+		e.assert(t, "inv.zero", fmt.Sprintf("%d", cl.Ord), cl.Tags, "the zero value satisfies the invariant: "+cl.Text, "")
+	})
+	res.Errors = e.errors
+	return res
 }
